@@ -869,6 +869,25 @@ def judge(case, res):
             why = "injected %s in %s #%d was swallowed: run() returned normally" % (inj["exc"], inj["kind"], inj["idx"])
         else:
             why = "" if ok else "run() raised %s instead of the injected object" % res.get("exc_repr")
+    if fired is not None:
+        # whichever exception it was, run() has to end there: the loop must not go back to delivering input.
+        # (Callbacks that were already due in the same loop iteration are tolerated; a stimulus that was fed
+        # at a later wait and still reached the application is not.)
+        i_raise = trace.index(fired)
+        fed_later = False
+        for e in trace[i_raise + 1 :]:
+            if e[0] == "feed":
+                fed_later = True
+            elif fed_later and e[0] in CALLBACK_EVENTS:
+                ok = False
+                why = "%s injected in %s #%d did not end run(): the loop waited again and delivered %r%s" % (
+                    inj["exc"],
+                    inj["kind"],
+                    inj["idx"],
+                    e,
+                    "; " + why if why else "",
+                )
+                break
     out["C12/exit"] = (ok, why, True)
 
     # ---- order clause
